@@ -124,6 +124,7 @@ func runConcurrent(p concParams) ([]event, []outc) {
 		answers: map[int64]answer{}, byCtr: map[int64]int64{}}
 	var seqno int64
 	var all []keyed
+	claimed := map[int64]bool{}
 	gens := make([]*uuid.SeqIDGen, p.ngen)
 	// sequential events get the key (tickets so far, 2+n, 0): after everything that happened
 	seqEvent := func(ev event, o outc) {
@@ -206,7 +207,9 @@ func runConcurrent(p concParams) ([]event, []outc) {
 						c = -((-cc.id)/eff + 1)
 					}
 					if t, ok := st.byCtr[c]; ok {
-						if cc.id == c*eff+1 && !initLease(all, t) {
+						if cc.id == c*eff+1 && !initLease(all, t) && !claimed[t] {
+							claimed[t] = true // one store call, one caller: a second call
+							// returning the same first id did not reach the store
 							// first id of a segment leased by a Next: that call reached the store
 							o.asked = true
 							ev.a = st.answers[t]
